@@ -16,7 +16,7 @@
     answers among [l] given to [i], [keeps i] the filter removing every operation of
     the other parties. *)
 From Coq Require Import ZArith List Bool Arith String.
-From Verif Require Import Base Cal Period Group Engine Heap HeapProofs.
+From Verif Require Import Base Cal Period Group Engine Heap HeapProofs HeapRefs HeapRefsProofs.
 Import ListNotations.
 Open Scope nat_scope.
 Local Notation length := List.length.
@@ -161,4 +161,56 @@ Example ex_refutation_witnesses :
      = [AVal [1; 1]%Z; ANone; AVal [51; 61]%Z; ANone]
   /\ snd (wrun pol_isolated wit_sys_spiral (clone pol_isolated (winit 1 wit_pop false) 0 false) wit_ops_spiral)
      = [AVal [1; 1]%Z; ANone; AVal [51; 61]%Z; AVal [50; 60]%Z].
+Proof. vm_compute. repeat split; reflexivity. Qed.
+
+(** "Every part of the clone refers to the clone rather than to the original."
+    Vocabulary (coq/model/HeapRefs.v): every simulation, tracer and population is an object
+    with an identity; a population records its [p_sim] (population.simulation), a household
+    population its [p_members] (its persons population), every holder its [h_sim] and
+    [h_pop] (holder.simulation, holder.population).  [rrun bp (rinit sy) os] is the world of
+    objects after the operations [os]; [rclone bp w i] clones simulation [i] under the
+    back-pointer policy [bp] ([backpointer_policy] = the code as it is now; the
+    correspondence check compares these pointers with the real objects' after every
+    operation).  [bound s]: both populations of [s] point to [s], the household's members
+    are [s]'s persons, every holder points to [s] and to the population of [s] holding it.
+    [objects s] = the simulation, its tracer, its persons and its household population.
+
+    The clone is one new simulation [c] appended to the world (every earlier simulation is
+    literally unchanged), made of four objects the world had never used; every part of [c]
+    points to [c]'s own objects; every earlier simulation - the original among them - still
+    points to its own objects, all older than [c]'s. *)
+Definition clone_backpointers_statement (bp : bpolicy) : Prop :=
+  forall sy pre i,
+  let w0 := rrun bp (rinit sy) pre in
+  i < length (rsims w0) ->
+  let w := rclone bp w0 i in
+  exists c,
+    rsims w = rsims w0 ++ [c]
+    /\ objects c = [r_next w0; r_next w0 + 1; r_next w0 + 2; r_next w0 + 3]
+    /\ bound c = true
+    /\ forall s, In s (rsims w0) -> bound s = true /\ Forall (fun o => o < r_next w0) (objects s).
+
+Theorem clone_backpointers : clone_backpointers_statement backpointer_policy.
+Proof. exact backpointers_after_clone_holds. Qed.
+Print Assumptions clone_backpointers.
+
+(** GroupPopulation.clone before fix 0ac1a97 (F13) - [GroupPopulation(self.entity, self.members)],
+    [holder.clone(self)] - as the policy [BKeepOriginal] of the same [rclone]: the clone's
+    household holders point to the original's population and simulation, its members are
+    the original's persons. *)
+Theorem clone_backpointers_refuted_prefix : ~ clone_backpointers_statement BKeepOriginal.
+Proof. exact backpointers_keep_original_refuted. Qed.
+Print Assumptions clone_backpointers_refuted_prefix.
+
+(** Non-vacuity: the clone of a clone (after a trace toggle) in the example system; under the
+    old policy the same clone has a household holder pointing to simulation 0 / population 3. *)
+Example ex_backpointers :
+  let w := rrun backpointer_policy (rinit ex_sys) [OpClone 0 false; OpTrace 1 true; OpClone 1 false] in
+  map objects (rsims w) = [[0; 1; 2; 3]; [4; 8; 6; 7]; [9; 10; 11; 12]]
+  /\ map bound (rsims w) = [true; true; true]
+  /\ map (fun s => p_holders (r_group s)) (rsims w)
+     = [[(2, mk_rholder 0 3)]; [(2, mk_rholder 4 7)]; [(2, mk_rholder 9 12)]]
+  /\ map (fun s => (p_holders (r_group s), p_members (r_group s), bound s))
+         (rsims (rrun BKeepOriginal (rinit ex_sys) [OpClone 0 false]))
+     = [([(2, mk_rholder 0 3)], Some 2, true); ([(2, mk_rholder 0 3)], Some 2, false)].
 Proof. vm_compute. repeat split; reflexivity. Qed.
